@@ -100,6 +100,58 @@ Fixpoint pat_ok (p : pat) : bool :=
   | _ => true
   end.
 
+(* What every accepted tree satisfies beyond that: a wildcard struct pattern has `..`, and an
+   element written `ops: pattern` in a tuple / variant pattern has the index of its position
+   as the root of `ops`. *)
+Definition root_at (o : fop) (pos : N) : bool :=
+  match root_field_name o with Some (FIndex i) => N.eqb i pos | _ => false end.
+
+Section ElemsOk.
+  Variable f : pat -> bool.
+  Definition elem_ok (pos : N) (el : option fop * pat) : bool :=
+    match fst el with Some o => tail_ok o && root_at o pos | None => true end && f (snd el).
+  Fixpoint elems_ok (pos : N) (l : list (option fop * pat)) : bool :=
+    match l with
+    | [] => true
+    | el :: r => elem_ok pos el && elems_ok (N.succ pos) r
+    end.
+End ElemsOk.
+
+Fixpoint tree_ok (p : pat) : bool :=
+  match p with
+  | PStruct _ path rest fields =>
+      match path with None => rest | Some _ => true end &&
+      forallb (fun fp => fop_ok (fst fp) && tree_ok (snd fp)) fields
+  | PEnum _ _ elems | PTuple _ _ elems => elems_ok tree_ok 0%N elems
+  | PSlice _ _ elems | PSet _ _ _ elems => forallb tree_ok elems
+  | PMap _ _ _ entries => forallb (fun kv => tree_ok (snd kv)) entries
+  | _ => true
+  end.
+
+Lemma elems_ok_pat_ok (l : list (option fop * pat)) :
+  Forall (fun el => tree_ok (snd el) = true -> pat_ok (snd el) = true) l ->
+  forall pos, elems_ok tree_ok pos l = true ->
+  forallb (fun el => match fst el with Some o => tail_ok o | None => true end && pat_ok (snd el)) l = true.
+Proof.
+  induction 1 as [|el l Hel Hl IH]; intros pos H; [reflexivity|].
+  cbn in *. unfold elem_ok in H.
+  apply andb_true_iff in H as [H1 H2]. apply andb_true_iff in H1 as [H1 H3].
+  rewrite (IH _ H2), (Hel H3). destruct (fst el); [|reflexivity].
+  apply andb_true_iff in H1 as [-> _]. reflexivity.
+Qed.
+
+Lemma tree_ok_pat_ok : forall p, tree_ok p = true -> pat_ok p = true.
+Proof.
+  induction p using pat_ind'; intros Hok; try reflexivity; cbn [tree_ok pat_ok] in *.
+  - apply andb_true_iff in Hok as [_ Hok]. rewrite forallb_forall in *. intros fp Hin.
+    specialize (Hok fp Hin). apply andb_true_iff in Hok as [-> Hp]. rewrite Forall_forall in H. rewrite (H _ Hin Hp). reflexivity.
+  - eapply elems_ok_pat_ok; eassumption.
+  - eapply elems_ok_pat_ok; eassumption.
+  - rewrite forallb_forall in *. intros x Hin. rewrite Forall_forall in H. apply (H _ Hin). apply Hok. exact Hin.
+  - rewrite forallb_forall in *. intros x Hin. rewrite Forall_forall in H. apply (H _ Hin). apply Hok. exact Hin.
+  - rewrite forallb_forall in *. intros x Hin. rewrite Forall_forall in H. apply (H _ Hin). apply Hok. exact Hin.
+Qed.
+
 Section ParserP.
   Variable regex join_ok : bool.
   Variable parse_expr : list ttree -> ores expr_ok.
@@ -288,7 +340,7 @@ Section ParserP.
 
   (* ---- leaves -------------------------------------------------------------------- *)
 
-  Definition ok_pat (p : pat) : Prop := pat_ok p = true.
+  Definition ok_pat (p : pat) : Prop := tree_ok p = true.
 
   Lemma spec_p_cmp_op : spec (p_cmp_op join_ok) (fun _ => True).
   Proof.
@@ -334,19 +386,17 @@ Section ParserP.
   (* ---- the recursive part: all thirteen functions at once, by induction on the fuel ---- *)
 
   Definition ok_fields (r : list (fop * pat) * bool) : Prop :=
-    forallb (fun fp => fop_ok (fst fp) && pat_ok (snd fp)) (fst r) = true.
-  Definition ok_elems (l : list (option fop * pat)) : Prop :=
-    forallb (fun el => match fst el with Some o => tail_ok o | None => true end && pat_ok (snd el)) l = true.
-  Definition ok_elem (el : option fop * pat) : Prop :=
-    match fst el with Some o => tail_ok o | None => true end && pat_ok (snd el) = true.
-  Definition ok_list (l : list pat) : Prop := forallb pat_ok l = true.
-  Definition ok_set_elems (r : list pat * bool) : Prop := forallb pat_ok (fst r) = true.
-  Definition ok_entries (r : list (uexpr * pat) * bool) : Prop := forallb (fun kv => pat_ok (snd kv)) (fst r) = true.
+    forallb (fun fp => fop_ok (fst fp) && tree_ok (snd fp)) (fst r) = true.
+  Definition ok_elems (pos : N) (l : list (option fop * pat)) : Prop := elems_ok tree_ok pos l = true.
+  Definition ok_elem (pos : N) (el : option fop * pat) : Prop := elem_ok tree_ok pos el = true.
+  Definition ok_list (l : list pat) : Prop := forallb tree_ok l = true.
+  Definition ok_set_elems (r : list pat * bool) : Prop := forallb tree_ok (fst r) = true.
+  Definition ok_entries (r : list (uexpr * pat) * bool) : Prop := forallb (fun kv => tree_ok (snd kv)) (fst r) = true.
 
   Definition all_specs (f : nat) : Prop :=
     spec (p_pattern f) ok_pat /\ spec (p_struct f) ok_pat /\ spec (p_fields f) ok_fields /\
-    spec (p_enum f) ok_pat /\ spec (p_tuple f) ok_pat /\ (forall pos, spec (p_elems f pos) ok_elems) /\
-    (forall pos, spec (p_indexed f pos) ok_elem) /\ spec (p_slice f) ok_pat /\ spec (p_list f) ok_list /\
+    spec (p_enum f) ok_pat /\ spec (p_tuple f) ok_pat /\ (forall pos, spec (p_elems f pos) (ok_elems pos)) /\
+    (forall pos, spec (p_indexed f pos) (ok_elem pos)) /\ spec (p_slice f) ok_pat /\ spec (p_list f) ok_list /\
     spec (p_set f) ok_pat /\ spec (p_set_elems f) ok_set_elems /\ spec (p_map f) ok_pat /\
     spec (p_map_entries f) ok_entries.
 
@@ -396,10 +446,10 @@ Section ParserP.
           + sbind q. apply spec_ret. cbn. discriminate. }
       intros hd Hhd.
       eapply spec_bind; [apply spec_in_group; exact Hfields|]. intros g Hg.
-      destruct g as [[[? ?] ?] [fields rest]]. cbn in Hg.
+      destruct g as [[[? ?] ?] [fields rest]]. unfold ok_fields in Hg. cbn in Hg.
       destruct (fst hd) eqn:Hp.
-      + destruct rest; apply spec_ret; exact Hg.
-      + destruct rest; [apply spec_ret; exact Hg|].
+      + destruct rest; apply spec_ret; unfold ok_pat; cbn; exact Hg.
+      + destruct rest; [apply spec_ret; unfold ok_pat; cbn; exact Hg|].
         destruct (snd hd) eqn:Hs; [apply spec_fail_at|]. exfalso. exact (Hhd eq_refl eq_refl).
     - (* p_fields *)
       cbn [Parser.p_fields]. sbind e. destruct e; [apply spec_ret; reflexivity|].
@@ -416,7 +466,7 @@ Section ParserP.
       apply spec_ret. unfold ok_fields in *. cbn. rewrite Hops, Hp, Hm. reflexivity.
     - (* p_enum *)
       cbn [Parser.p_enum]. sbind path. sbind paren.
-      eapply spec_bind with (P := ok_elems).
+      eapply spec_bind with (P := ok_elems 0%N).
       { destruct paren.
         - eapply spec_bind; [apply spec_in_group; apply Helems|]. intros g Hg. apply spec_ret. exact Hg.
         - apply spec_ret. reflexivity. }
@@ -428,24 +478,26 @@ Section ParserP.
     - (* p_elems *)
       intros pos. cbn [Parser.p_elems]. sbind e. destruct e; [apply spec_ret; reflexivity|].
       eapply spec_bind; [apply spec_fork; exact Hpat|]. intros fk _.
-      eapply spec_bind with (P := ok_elem).
+      eapply spec_bind with (P := ok_elem pos).
       { destruct fk as [[fkp after]|]; [|apply Hindexed].
         destruct (negb (peek_punct ":" after)); [|apply Hindexed].
-        eapply spec_bind; [exact Hpat|]. intros p1 Hp1. apply spec_ret. exact Hp1. }
+        eapply spec_bind; [exact Hpat|]. intros p1 Hp1. apply spec_ret. unfold ok_elem, elem_ok. cbn. exact Hp1. }
       intros el Hel.
       sbind e2.
       eapply spec_bind with (P := fun _ => True).
       { destruct e2; [apply spec_ret; exact I|]. sbind_. apply spec_ret. exact I. }
       intros _ _.
       eapply spec_bind; [apply Helems|]. intros more Hm.
-      apply spec_ret. unfold ok_elems, ok_elem in *. cbn. rewrite Hel, Hm. reflexivity.
+      apply spec_ret. unfold ok_elems, ok_elem in *. cbn [elems_ok]. rewrite Hel, Hm. reflexivity.
     - (* p_indexed *)
       intros pos. cbn [Parser.p_indexed].
       eapply spec_bind; [apply spec_p_field_operation|]. intros ops [Hops Hroot].
       destruct (root_is ops pos) as [b|] eqn:Hr; [|exfalso; exact (Hroot pos Hr)].
       destruct b; [|apply spec_fail].
       sbind_. eapply spec_bind; [exact Hpat|]. intros p Hp.
-      apply spec_ret. unfold ok_elem. cbn. rewrite (fop_ok_tail _ Hops), Hp. reflexivity.
+      apply spec_ret. unfold ok_elem, elem_ok. cbn [fst snd]. rewrite (fop_ok_tail _ Hops), Hp.
+      unfold root_is in Hr. unfold root_at. destruct (root_field_name ops) as [[|i]|]; try discriminate.
+      inversion Hr as [Hi]. rewrite Hi. reflexivity.
     - (* p_slice *)
       cbn [Parser.p_slice].
       eapply spec_bind; [apply spec_in_group; exact Hlist|]. intros g Hg.
@@ -515,7 +567,7 @@ Section ParserP.
     - discriminate.
   Qed.
 
-  Lemma parse_top_ok fuel start ts v p : parse_top_from fuel start ts = TOk v p -> pat_ok p = true.
+  Lemma parse_top_ok fuel start ts v p : parse_top_from fuel start ts = TOk v p -> tree_ok p = true.
   Proof.
     unfold Parser.parse_top_from.
     match goal with |- context [?m SCall ?st] =>
@@ -622,6 +674,6 @@ Theorem front_end_no_panic regex join_ok pe pp pc start ts site :
 Proof.
   unfold front_end_from.
   destruct (parse_top_from regex join_ok pe pp pc (fuel_for ts) start ts) as [v p|sp|s|] eqn:E; try discriminate.
-  - rewrite (expand_no_panic join_ok p (parse_top_ok _ _ _ _ _ _ _ _ _ _ E)). discriminate.
+  - rewrite (expand_no_panic join_ok p (tree_ok_pat_ok _ (parse_top_ok _ _ _ _ _ _ _ _ _ _ E))). discriminate.
   - exfalso. exact (parse_top_no_panic _ _ _ _ _ _ _ _ _ E).
 Qed.
